@@ -277,6 +277,18 @@ def derive_class(repo, cname):
             for nm in [x.id for x in ast.walk(n.value) if isinstance(x, ast.Name)]:
                 for srcs in local.get(nm, []):
                     copy_keys |= set(re.findall(r"results(?:\.get\(|\[)['\"]([A-Za-z_]+)['\"]", srcs))
+    not_identity = []
+    for n in ast.walk(si):
+        if isinstance(n, ast.Call) and _src(n.func) == "self._Set_solutions":
+            for a in n.args[1:]:
+                srcs = [(x, a.lineno) for x in local.get(a.id, [])] if isinstance(a, ast.Name) else [(_src(a), a.lineno)]
+                if isinstance(a, ast.Name) and not srcs:
+                    not_identity.append("%s (line %d): unknown provenance" % (a.id, a.lineno))
+                for sx, ln in srcs:
+                    ok_ = (re.fullmatch(r"results\[[^\]]+\](\.copy\(\))?", sx) or re.fullmatch(r"np\.zeros_like\(\w+\)", sx)
+                           or re.fullmatch(r"np\.zeros\([^()]*\)", sx))
+                    if not ok_:
+                        not_identity.append("`%s` passed to _Set_solutions (line %d)" % (sx, ln))
     lowered_by_need_update, lowered_by_set_iter = set(), set()
     for n in cls.body:
         if isinstance(n, ast.FunctionDef) and n.name == "Need_Update":
@@ -291,7 +303,7 @@ def derive_class(repo, cname):
         if isinstance(x, ast.Call) and _src(x.func) in ("self.Need_Update",) and not x.args:
             lowered_by_set_iter |= lowered_by_need_update
     stale = sorted(lowered_by_need_update - lowered_by_set_iter)
-    return {"cache_flags": sorted(lowered_by_need_update), "cache_flags_not_lowered_by_set_iter": stale, "restore_copy_keys": sorted(copy_keys), "guarded_restore": guarded,"stored": stored, "unsaved_internal": unsaved, "reads": sorted(reads), "restore_binds": restore_binds,
+    return {"restore_not_identity": not_identity, "cache_flags": sorted(lowered_by_need_update), "cache_flags_not_lowered_by_set_iter": stale, "restore_copy_keys": sorted(copy_keys), "guarded_restore": guarded,"stored": stored, "unsaved_internal": unsaved, "reads": sorted(reads), "restore_binds": restore_binds,
             "line_save": sv.lineno, "line_set": si.lineno}
 
 
@@ -410,6 +422,7 @@ def gen_coq(base, classes):
     lines.append("Definition get_results_stateless : bool := %s." % b(base["get_results_stateless"]))
     lines.append("Definition restores_unconditionally : bool := %s." % b(not any(classes[c]["guarded_restore"] for c in classes)))
     lines.append("Definition restore_invalidates_derived : bool := %s." % b(not any(classes[c]["cache_flags_not_lowered_by_set_iter"] for c in classes)))
+    lines.append("Definition restore_is_identity : bool := %s." % b(not any(classes[c]["restore_not_identity"] for c in classes)))
     lines.append("Definition disk_reads_uncached : bool := %s." % b(base["disk_reads_uncached"]))
     lines.append("Definition stores_all_restored_rates : bool := %s." % b(base.get("stores_all_restored_rates", True)))
     return "\n".join(lines) + "\n", cfgs
@@ -440,6 +453,11 @@ class Hist:
         if self.base is not None and self.base not in self.cont:
             self.cont[self.base] = t
         self.ops.append(["Solve", t])
+        self.base = None
+
+    def inject(self, kind):
+        """the live fields rebound (through _Set_solutions) to arrays with NON-PHYSICAL values: for the model a Solve"""
+        self.ops.append(["Solve", self.toks(), "inject", kind])
         self.base = None
 
     def save(self):
@@ -554,6 +572,34 @@ def gen_directed(rng, cid, aname, nf, nkeys, kind, allow):
                 ops.append(["ResultQ", rng.randrange(h.niter), rng.randrange(nkeys)])
         if rng.random() < 0.5:
             h.setmesh(); h.solve(); h.save(); h.restore(rng.randrange(h.niter))
+    elif kind == "exotic":
+        # restoration is judged on values OUTSIDE any physical range (negative / > 1 damage, 1e30, denormals, -0.0)
+        # and on exactly scaled twins (x 2^-60, x 2^60) of a solved field: bitwise, in memory and on disk
+        kinds = ["range", "huge", "tiny", "negzero", "down", "up"]
+        rng.shuffle(kinds)
+        h.solve(); h.save()                        # iteration 0: a sane state every real Solve restarts from
+        if rng.random() < 0.5:
+            ops.append(["SetFolder", rng.choice([1, 2])])
+        for j, kd in enumerate(kinds[:rng.choice([3, 4])]):
+            if kd in ("down", "up"):
+                h.restore(0)
+            h.inject(kd); h.save()
+            if j == 1:
+                ops.append(["SetFolder", rng.choice([0, 3])])
+        for _ in range(3):
+            i = rng.randrange(1, h.niter)
+            c = rng.random()
+            if c < 0.4:
+                h.restore(i, rng.choice(["SetIter", "SetIterNeg"]))
+            elif c < 0.7:
+                ops.append(["GetResults", i]); h.nh = nkeys
+            else:
+                ops.append(["ResultQ", i, rng.randrange(nkeys)]); h.base = i; h.nh = 1
+        h.restore(0, replay=False)
+        h.solve(); h.save()
+        h.restore(rng.randrange(1, h.niter - 1), "SetIterNeg")
+        ops.append(["GetResultsNeg", 1])
+        h.restore(0)
     elif kind == "results":
         # every advertised result of iteration i equals the one obtained at the time, also when the caches of the
         # current state are warm (energies / matrices just queried) when the older iteration is looked at
@@ -604,7 +650,8 @@ def gen_directed(rng, cid, aname, nf, nkeys, kind, allow):
     else:
         # "last": read the most recent iterations through negative / default indices while the run goes on,
         # on disk, across a folder change, then in memory
-        plan = [rng.choice([1, 2, 3]), rng.choice([1, 2, 3]), rng.choice([1, 2]), 0]
+        fa, fb = rng.sample([1, 2, 3], 2)
+        plan = [fa, fb, fa, 0]     # ... and BACK to a folder that already holds iterations of this history
         for seg, f in enumerate(plan[:rng.choice([3, 4])]):
             ops.append(["SetFolder", f])
             for _ in range(rng.choice([2, 3])):
@@ -620,6 +667,8 @@ def gen_directed(rng, cid, aname, nf, nkeys, kind, allow):
                     ops.append(["GetResultsNeg", 2])
                     if rng.random() < 0.5:
                         h.restore(h.niter - 2, "SetIterNeg")
+        for i in rng.sample(range(h.niter), min(3, h.niter)):
+            ops.append(["GetResults", i])          # every folder of the history is still readable
         h.restore(rng.randrange(h.niter), replay=True)
     return {"id": cid, "sim": aname, "ops": ops}
 
@@ -788,6 +837,7 @@ def run(ctx):
         ctx.cov["derived_flags"] = base
         ctx.cov["stored_keys_per_algorithm"] = {c: {a: per_algo[c][a]["stored"] for a in accepted[c]} for c in ("Elastic", "Thermal", "HyperElastic", "WeakForms")}
         ctx.cov["cache_validity_flags"] = {c: {"flags": classes[c]["cache_flags"], "not_lowered_by_Set_Iter": classes[c]["cache_flags_not_lowered_by_set_iter"]} for c in classes if classes[c]["cache_flags"]}
+        ctx.cov["restore_not_identity"] = {c: classes[c]["restore_not_identity"] for c in classes if classes[c]["restore_not_identity"]}
         ctx.cov["guarded_restores"] = {c: classes[c]["guarded_restore"] for c in classes if classes[c]["guarded_restore"]}
         ctx.cov["derived_configs"] = {k: {kk: vv for kk, vv in v.items()} for k, v in cfgs.items()}
         aux_alias = {c: [k for k, (kind, s) in classes[c]["stored"].items() if kind == "alias"] for c in classes}
@@ -870,6 +920,13 @@ def run(ctx):
         c["allresults"] = True
         cases.append(c)
         cid += 1
+        for j in range(1 if quick else 3):
+            c = timed(gen_directed(ctx.rng, cid, aname, nf_model, len(keys), "exotic", full))
+            c["exotic"] = True
+            if aname.split("_")[0] in ("Elastic", "Thermal", "WeakForms") and c.get("algo") != "euler_explicit" and (j % 2 == 0):
+                c["coord_scale"] = [1e-9, 1e-6, 1e3][len([x for x in cases if x.get("coord_scale")]) % 3]     # the same scenario in other length units
+            cases.append(c)
+            cid += 1
         for j in range(ndirected):
             kind = ["meshes", "virgin", "last"][j % 3]
             c = timed(gen_directed(ctx.rng, cid, aname, nf_model, len(keys), kind, full - ({"saveload"} if aname in ("Beam_static", "Beam_newmark", "InElastic") else set())))
@@ -1093,6 +1150,8 @@ def run(ctx):
     ctx.cov["sim_distribution"] = simdist
     ctx.cov["algorithm_coverage"] = algodist
     ctx.cov["cases_comparing_all_advertised_results"] = {c["sim"]: r.get("n_results_recorded", 0) for c, r in zip(cases, impl["cases"]) if c.get("allresults")}
+    ctx.cov["cases_with_non_physical_saved_fields"] = len([c for c in cases if c.get("exotic")])
+    ctx.cov["cases_in_other_length_units"] = {str(s): len([c for c in cases if c.get("coord_scale") == s]) for s in (1e-9, 1e-6, 1e3)}
     ctx.cov["cases_on_mixed_type_meshes"] = len([c for c in cases if c.get("mixed")])
     ctx.cov["cases_with_second_simulation_in_same_folders"] = len([c for c in cases if c.get("twin")])
     ctx.cov["model_vs_impl_final_states_compared"] = ncmp
